@@ -302,6 +302,10 @@ where
         // MAV is provided by the context from whatever interface the command was received on
         if context.mav {
             stb |= StatusBit::Mav.mask();
+            // MAV is part of the status byte summarized by MSS
+            if device.sre() & StatusBit::Mav.mask() != 0 {
+                stb |= StatusBit::RqsMss.mask();
+            }
         }
         response.data(stb).finish()
     }
